@@ -150,9 +150,10 @@ PROPS = {
     },
     "C16": {
         "groups": [{"name": "json", "tags": "verif", "run": "^VH_C16_", "flags": {"harness-timeout": 280},
-                    "quick": {"params": "fields=2,strlen=3"}, "thorough": {"params": "fields=3,strlen=4", "harness-timeout": 3000, "max-paths": 5000000}}],
+                    "quick": {"params": "fields=2,strlen=3,wfields=1"}, "thorough": {"params": "fields=3,strlen=4,wfields=2", "harness-timeout": 3000, "max-paths": 5000000}}],
         "level": "model_checking",
         "bounds": {
+            "write": "VH_C16_write: ConsoleWriter.Write as a whole with encoding/json's Decoder as an environment stub (Decode yields the harness's event map; the native replay decodes real JSON text of the same map): three consecutive Writes through one writer, the first succeeding or failing in each way Write can fail (destination error, short write, FormatExtra error, undecodable input), the second and third on an event of <= 1 (thorough 2) extra fields: result n == len(p), nil error, exactly one write to Out holding this event's parts, fields, extra and one newline and nothing left over from the earlier call, identical bytes for the identical event; 'other' values are rendered as the compact JSON InterfaceMarshalFunc returns (a symbolic printable byte inside)",
             "claimed": "writeFields + orderFields on a symbolic decoded event of <= 2 (thorough 3) fields whose names are drawn from {symbolic letter, 'error', '', a part name, 'f'+symbolic letter, 'zz'} and values from {string, json.Number, other->InterfaceMarshalFunc}, FieldsExclude empty or one name, with and without already-written parts, against a reference rendering (error first, rest byte-lexical; with FieldsOrder: named fields first in that order, rest lexical); needsQuote on all strings of <= 3 (thorough 4) symbolic bytes against the byte-wise definition, and its wiring to string values; writePart over sequences of <= 3 parts from the four standard names + one extra, any single PartsExclude, present or absent values",
             "not_claimed": "that Write succeeds and returns the full length for every event, JSON decoding (encoding/json), timestamp/level/caller/message rendering, number digits, strconv.Quote's escaping (stub: quotes around the raw text), colours (fmt), determinism of the whole; map iteration order is fixed insertion order in the engine (the code sorts, so order-independence holds by construction of the reference comparison only for the explored order)",
         },
@@ -205,11 +206,12 @@ PROPS = {
     },
     "C15": {
         "groups": [{"name": "json", "tags": "verif", "run": "^VH_C15_",
-                    "quick": {"params": "ops=3"}, "thorough": {"params": "ops=5", "harness-timeout": 3000}}],
+                    "quick": {"params": "ops=4"}, "thorough": {"params": "ops=6", "harness-timeout": 3000}}],
         "cross_solver": {"run": "^VH_C15_"},
         "level": "model_checking",
-        "bounds": {"quick": "histories of 3 operations (WriteLevel / Trigger / Close)", "thorough": "histories of 5 operations",
-                   "values": "ConditionalLevel, TriggerLevel and every line level symbolic over int8 (level 10 excluded as the property states); line = one symbolic non-newline byte + newline (two_lines: 2+1 bytes); bytes.Buffer executed from its real SSA; destination errors and concurrency outside"},
+        "bounds": {"quick": "histories of 4 operations (WriteLevel / Trigger / Close)", "thorough": "histories of 6 operations",
+                   "concurrency": "VH_C15_concurrent: 1-2 held lines, then a triggering write racing with one more write (held-class, pass-through-class or a second trigger) from another goroutine: every schedule (visible operations: mutex, atomics, the recording destination), result must be one a sequential order produces",
+                   "values": "ConditionalLevel, TriggerLevel and every line level symbolic over int8 (level 10 excluded as the property states); line = one symbolic non-newline byte + newline (two_lines: 2+1 bytes); bytes.Buffer executed from its real SSA; destination errors outside"},
         "assumptions": COMMON_ASSUME + ["sync.Pool modelled as a LIFO free list", "bytes.IndexByte modelled as a left-to-right scan"],
     },
     "C04": {
@@ -235,7 +237,7 @@ MANIFEST_TEXT = {
     "C16": {
         "level_text": "Reduced scope: bounded model checking of the logic zerolog itself wrote on top of the decoded event map (field selection, exclusion, ordering, quoting decision, part dispatch and spacing) on symbolic events with recording formatters, against reference renderings written in the harness.",
         "design_ref": "DESIGN.md §3 C16",
-        "level_note": "ConsoleWriter.Write as a whole (encoding/json decoding, fmt, strconv.Quote, time parsing/formatting, os.Getwd) cannot be encoded within reach and is not claimed.",
+        "level_note": "ConsoleWriter.Write's own control flow (pooled buffer, parts, fields, extra, newline, single write, error returns) is decided with the JSON decoder as an environment stub; encoding/json's decoding itself, fmt's default formatters, strconv.Quote's escaping, time parsing/formatting and os.Getwd cannot be encoded within reach and are not claimed.",
     },
     "C18": {
         "level_text": "Bounded model checking: the response-accounting proxy is run under symbolic call sequences with symbolic accepted counts against a reference model (fully claimed); request isolation is decided as freshness + write-set lemmas on the real NewHandler / field handlers with net/http reduced to stubs (reduced scope).",
@@ -313,9 +315,9 @@ MANIFEST_TEXT = {
         "level_note": "Bound: <= 2x2 (quick) / 3x3 (thorough) destinations x events.",
     },
     "C15": {
-        "level_text": "Bounded model checking of the real TriggerLevelWriter (including bytes.Buffer) over all histories of up to 3 (thorough 5) operations with symbolic levels and line contents, compared after every operation with a reference model.",
+        "level_text": "Bounded model checking of the real TriggerLevelWriter (including bytes.Buffer) over all histories of up to 4 (thorough 6) operations with symbolic levels and line contents, compared after every operation with a reference model.",
         "design_ref": "DESIGN.md §3 C15",
-        "level_note": "Lines are 1-2 symbolic bytes; concurrency (the mutex) and destination errors are outside the bound.",
+        "level_note": "Lines are 1-2 symbolic bytes; concurrency: two goroutines, one write each after 1-2 held lines (all schedules); destination errors are outside the bound.",
     },
     "C01": {
         "level_text": "Bounded model checking of the real code: every exported field method of Event/Context/Array (enumerated from the method sets of the working tree) is executed symbolically for one step from an arbitrary buffer satisfying the representation invariant, and the appended bytes must parse as well-formed members; by induction this covers call sequences and nesting of any length, within the stated bounds on string lengths and slice sizes.",
